@@ -9,14 +9,14 @@ COMMON_NOTE = (
     "no native_decide, no sorry); the Lean statements in lean/IoosQc/Props are a reading of properties.jsonl; the model in "
     "lean/IoosQc/Model is hand-written and tied to /repo only by the differential correspondence run (generators, "
     "canonicalisation in harness/sut.py, Fraction/JSON wire, Lean driver decoding); float64 is treated as exact on the dyadic "
-    "input lattice (DESIGN.md §3); numpy/pandas/xarray/geographiclib behaviour is modelled, not verified. C01, C03, C04, C09, C11, C12, C14, C19, C20 also "
-    "have source pins: literal tables and signature defaults read from /repo by harness/extract.py (Python ast) and checked by the kernel against "
-    "IoosQc/Theorems/SourcePin.lean on every run. C03, C04, C08, C09, C10, C11, C12, C13, C14 additionally have a TRANSLATED model: harness/translate.py "
+    "input lattice (DESIGN.md §3); numpy/pandas/xarray/geographiclib behaviour is modelled, not verified. C01, C03, C04, C05, C07, C09, C11, C12, C14, C19, C20 also "
+    "have source pins: literal tables, signature defaults, the layout dispatch of Config.__init__ (C07) and the window comparisons of the stream front ends (C05) "
+    "read from /repo by harness/extract.py (Python ast) and checked by the kernel against IoosQc/Theorems/SourcePin.lean on every run. C03, C04, C08, C09, C10, C11, C12, C13, C14, C19 additionally have a TRANSLATED model: harness/translate.py "
     "(Python ast -> Lean, a translator that raises on anything outside its vocabulary) regenerates the array-level Lean definitions of ALL ELEVEN QC test "
     "functions (gross_range, valid_range, location, climatology + ClimatologyConfig.check, spike, rate_of_change, flat_line, attenuated_signal, "
-    "density_inversion, pressure_increasing, speed) and of qartod_compare from /repo's current source on every run and the kernel checks that they are the "
-    "definitions of IoosQc/Model/NpSrc.lean / NpAgg.lean, which Theorems/NpSrc … NpSrc6 + NpRefine prove equal to the pointwise models the property "
-    "theorems are about (theorems Cxx_src_*; numpy.ma's data-under-mask semantics, strided windows, index arrays, for loops "
+    "density_inversion, pressure_increasing, speed), of qartod_compare and of PandasStore.save from /repo's current source on every run and the kernel checks that they are the "
+    "definitions of IoosQc/Model/NpSrc.lean / NpAgg.lean / NpStore.lean, which Theorems/NpSrc … NpSrc7 + NpRefine prove equal to the pointwise models the property "
+    "theorems are about (theorems Cxx_src_*; Theorems/SrcProps restates the property theorems directly about the translated programs, Cxx_prog_*; numpy.ma's data-under-mask semantics, strided windows, index arrays, for loops "
     "modelled in Model/Np and compared primitive by primitive with the installed numpy on every run); a rewritten body makes that pin 'reshaped' — "
     "nothing is claimed from it and the correspondence run remains the tie. C05, C06, C18 also compare complete real runs with the pipeline model "
     "IoosQc.systemRun (Model/System, Theorems/Sys)."
@@ -98,7 +98,8 @@ CHECKS.update({
             "selects. What a test returns on those rows is C03-C14's business. C05_sys_*: the composed pipeline model IoosQc.runStream / systemRun "
             "(Config.contexts grouping -> window rows -> Call.run binding -> test model -> collection) yields exactly one result per configured "
             "(context, present stream, test), the direct call on the window rows (C05_sys_yield_sound / _complete), the same for every front-end "
-            "mechanism, untouched by rows outside the window; complete real runs are compared with that one model value. NaT rows: C05_numpy_mask_nat.",
+            "mechanism, untouched by rows outside the window; complete real runs are compared with that one model value. NaT rows: C05_numpy_mask_nat. "
+            "C05_pin_window: the comparison operators the three front ends apply to the window bounds (>= starting, < ending) are read from the source.",
             "Lean 4 proof (refinement of each front end's window mechanism to the specification mask; soundness / completeness of the pipeline model) "
             "+ differential correspondence, per context and end to end"),
     "C06": ("Theorems scatter_getD, C06_collect_spec, C06_dict_spec, C06_order_independent, C06_main: numpy boolean-mask assignment "
@@ -111,7 +112,8 @@ CHECKS.update({
     "C07": ("Theorems C07_context, C07_layout_contexts/context/streams/modules, C07_depth_*, C07_unknown_skipped, C07_main: the layout "
             "dispatch of Config on the parsed tree yields one call per configured (stream, module, test) for all four layouts. The eight "
             "carriers (YAML / JSON / files / xarray attributes) are decoded by third-party code and are covered by the correspondence "
-            "only (12 carriers x 4 layouts on generated configurations).",
+            "only (12 carriers x 4 layouts on generated configurations). C07_pin_layout: the chain of layout tests of Config.__init__ (keys, order, "
+            "depth threshold, default stream key) read from the source is the chain the model dispatches on.",
             "Lean 4 proof (refinement: typed configuration -> written tree -> calls) + differential correspondence over carriers"),
     "C15": ("Theorems C15_data, C15_time, C15_factor, C15_main (+ regression witness C15_data_bad_witness for fixed finding F-11): branch "
             "logic of the input normalisation; that numpy / pandas coercions behave as modelled is checked by running every carrier of "
@@ -135,8 +137,9 @@ CHECKS.update({
             "Lean 4 proof (independence of entries in the run model; isolation in the pipeline model) + fault-injection correspondence on all front ends"),
     "C19": ("Theorems C19_cfSafe_charset, C19_plain_name, C19_kept_iff, C19_main: cf_safe_name output alphabet for every string, "
             "include / exclude semantics, and the save loop writes exactly the axis, data and one flag column per kept result when names "
-            "do not collide (collisions = known finding F-18); correspondence on PandasStore.save / compute_aggregate over real stream runs.",
-            "Lean 4 proof (invariant of the save loop, character-level lemma) + differential correspondence"),
+            "do not collide (collisions = known finding F-18); correspondence on PandasStore.save / compute_aggregate over real stream runs. "
+            "C19_src_save / C19_prog_save: PandasStore.save + column_from_collected_result, regenerated from the source by harness/translate.py, equal the model.",
+            "Lean 4 proof (invariant of the save loop, character-level lemma; refinement of the translated save loop to the model) + differential correspondence"),
     "C20": ("Theorems evalRev_compile, C20_eval_history, C20_main, C20_history_irrelevant: the postfix stack machine returns the ordinary "
             "arithmetic value of the expression on top of ANY stack content (history independence for all histories); validator and "
             "creator are executable models checked by correspondence; pyparsing's grammar is third-party (expressions are rendered by the "
